@@ -3,6 +3,7 @@ message-to-user TLVs (engine V).  DESIGN.md section 4, C18."""
 
 from __future__ import annotations
 
+import pathlib
 from mc import domains as D
 from mc.alias import receive_buffer, reuse_buffer
 from mc.rec import Rec
@@ -183,6 +184,17 @@ def observe_params(kind, got):
     return ()
 
 
+def name_views(kind, got, exp):
+    """[((object, view prefix), expected name octets)] for the parameter kinds that carry names"""
+    if kind == "putreq":
+        return [((got, "source_file"), exp[2]), ((got, "dest_file"), exp[3])]
+    if kind == "dirreq":
+        return [((got, "dir_path"), exp[0]), ((got, "dir_file_name"), exp[1])]
+    if kind == "dirresp":
+        return [((got[1], "dir_path"), exp[1]), ((got[1], "dir_file_name"), exp[2])]
+    return []
+
+
 def repro_of(kind, p):
     if kind == "putreq":
         return f"ProxyPutRequest(ProxyPutRequestParams(UnsignedByteField({p['id']:#x}, {p['w']}), CfdpLv(bytes.fromhex('{bt(p['src']).hex()}')), CfdpLv(bytes.fromhex('{bt(p['dst']).hex()}'))))"
@@ -313,6 +325,20 @@ def _check_message(rec, L, case, kind, p, keep):
                 else:
                     if obs2 != exp:
                         bad(f"params/{getter}/second-read/values", obs2, exp)
+                # the text / path views of the names the parameter objects offer (names that are UTF-8 text only: the views decode)
+                for view, name in name_views(kind, got_params, exp):
+                    try:
+                        text = name.decode("utf-8")
+                    except UnicodeDecodeError:
+                        continue
+                    want = (text, str(pathlib.Path(text)))
+                    try:
+                        seen = (getattr(view[0], view[1] + "_as_str"), str(getattr(view[0], view[1] + "_as_path")))
+                    except Exception as e:
+                        bad(f"params/{getter}/name-view/exception", _exc(e), text)
+                        continue
+                    if seen != want:
+                        bad(f"params/{getter}/name-view/values", list(seen), list(want))
     check_classification(rec, case, r, msg_type, bad)
     rec.outcome(f"{kind}/len={len(ref)}/ok")
     return ref
